@@ -493,33 +493,62 @@ func c17Shapes(c *Ctx) {
 		if f == nil {
 			continue
 		}
-		ok := false
-		instrs(f, func(b *ssa.BasicBlock, i int, in ssa.Instruction) {
-			bo, isB := in.(*ssa.BinOp)
-			if !isB || bo.Op != token.ADD || bo.Type().String() != "string" {
-				return
+		// the builtin itself, or the shared helper it hands its parameters (and constants) to
+		g, fr, back := c.effectiveUnit(f)
+		isParam := func(v ssa.Value, k int) bool {
+			if b, ok := back[v]; ok {
+				v = b
 			}
-			isPad := func(v ssa.Value) bool {
-				call, isC := v.(*ssa.Call)
-				return isC && calleeOf(call) != nil && calleeOf(call).String() == "strings.Repeat"
-			}
-			isS := func(v ssa.Value) bool { return v == ssa.Value(f.Params[0]) }
-			if spec.padFirst && isPad(bo.X) && isS(bo.Y) {
-				ok = true
-			}
-			if !spec.padFirst && isS(bo.X) && isPad(bo.Y) {
-				ok = true
-			}
-		})
-		side := map[bool]string{true: "before", false: "after"}[spec.padFirst]
-		c.R.Check(rule, spec.name+"-side", c.P.Pos(f.Pos()), ok, "`"+spec.name+"` must put the padding "+side+" the string")
-		// padding is the pad parameter repeated
+			return k < len(f.Params) && v == ssa.Value(f.Params[k])
+		}
+		ok, bad := false, false
 		okPad := false
-		instrs(f, func(b *ssa.BasicBlock, i int, in ssa.Instruction) {
-			if call, isC := in.(*ssa.Call); isC && calleeOf(call) != nil && calleeOf(call).String() == "strings.Repeat" && call.Call.Args[0] == ssa.Value(f.Params[1]) {
-				okPad = true
+		for _, b := range g.Blocks {
+			if !fr.Reach[b] {
+				continue
 			}
-		})
+			for _, in := range b.Instrs {
+				if call, isC := in.(*ssa.Call); isC && calleeOf(call) != nil && calleeOf(call).String() == "strings.Repeat" && isParam(call.Call.Args[0], 1) {
+					okPad = true
+				}
+				bo, isB := in.(*ssa.BinOp)
+				if !isB || bo.Op != token.ADD || bo.Type().String() != "string" {
+					continue
+				}
+				isPad := func(v ssa.Value) bool {
+					call, isC := v.(*ssa.Call)
+					return isC && calleeOf(call) != nil && calleeOf(call).String() == "strings.Repeat"
+				}
+				// only concatenations that reach a reachable return count
+				used := false
+				for _, ret := range fr.Returns {
+					for _, res := range ret.Results {
+						if res == ssa.Value(bo) {
+							used = true
+						}
+						if phi, isPhi := res.(*ssa.Phi); isPhi {
+							for i, e := range phi.Edges {
+								if e == ssa.Value(bo) && fr.Edge[[2]int{phi.Block().Preds[i].Index, phi.Block().Index}] {
+									used = true
+								}
+							}
+						}
+					}
+				}
+				if !used && g != f {
+					continue
+				}
+				if spec.padFirst && isPad(bo.X) && isParam(bo.Y, 0) || !spec.padFirst && isParam(bo.X, 0) && isPad(bo.Y) {
+					ok = true
+				}
+				if !spec.padFirst && isPad(bo.X) && isParam(bo.Y, 0) || spec.padFirst && isParam(bo.X, 0) && isPad(bo.Y) {
+					bad = true
+				}
+			}
+		}
+		side := map[bool]string{true: "before", false: "after"}[spec.padFirst]
+		c.R.Check(rule, spec.name+"-side", c.P.Pos(f.Pos()), ok && !bad, "`"+spec.name+"` must put the padding "+side+" the string")
+		// padding is the pad parameter repeated
 		c.R.Check(rule, spec.name+"-pad-string", c.P.Pos(f.Pos()), okPad, "the padding must repeat the pad argument")
 	}
 	for _, name := range []string{"lpad", "rpad", "left", "right", "mid", "len"} {
@@ -1328,4 +1357,64 @@ func c18ContextPrecision(c *Ctx) {
 	}
 	c.R.Analysed["context_method_calls_in_integer_builtins"] = n
 	c.R.Floor(rule, 6)
+}
+
+// effectiveUnit: when builtin f only hands its parameters and constants to one module helper and returns its result,
+// the helper is the unit to read, folded with those constants (so `padString(s, ps, l, true)` is read with left=true).
+// back maps the helper's parameters to f's. Otherwise f itself, every block reachable.
+func (c *Ctx) effectiveUnit(f *ssa.Function) (*ssa.Function, *FoldResult, map[ssa.Value]ssa.Value) {
+	ident := func() (*ssa.Function, *FoldResult, map[ssa.Value]ssa.Value) {
+		args := make([]LV, len(f.Params))
+		for i := range args {
+			args[i] = bottom
+		}
+		return f, (&Folder{P: c.P}).Fold(f, args), map[ssa.Value]ssa.Value{}
+	}
+	if len(f.Blocks) != 1 {
+		return ident()
+	}
+	var call *ssa.Call
+	for _, in := range f.Blocks[0].Instrs {
+		if cl, ok := in.(*ssa.Call); ok {
+			if call != nil {
+				return ident()
+			}
+			call = cl
+		}
+	}
+	if call == nil {
+		return ident()
+	}
+	g := calleeOf(call)
+	if g == nil || !c.inModule(g) || len(g.Blocks) == 0 || len(call.Call.Args) != len(g.Params) {
+		return ident()
+	}
+	ret, ok := f.Blocks[0].Instrs[len(f.Blocks[0].Instrs)-1].(*ssa.Return)
+	if !ok || len(ret.Results) == 0 {
+		return ident()
+	}
+	uses := false
+	for _, rt := range plainOrigins.Roots(ret.Results[0]) {
+		if rt.Kind == "call" && rt.V == ssa.Value(call) {
+			uses = true
+		}
+	}
+	if !uses {
+		return ident()
+	}
+	back := map[ssa.Value]ssa.Value{}
+	args := make([]LV, len(g.Params))
+	for i, a := range call.Call.Args {
+		args[i] = bottom
+		if k, isK := a.(*ssa.Const); isK {
+			args[i] = constOf(k)
+			continue
+		}
+		if p, isP := a.(*ssa.Parameter); isP {
+			back[g.Params[i]] = p
+			continue
+		}
+		return ident()
+	}
+	return g, (&Folder{P: c.P}).Fold(g, args), back
 }
